@@ -828,7 +828,16 @@ def c14_5(ctx: Ctx) -> RuleResult:
                             res.add(g, r_, "every path from the evaluation to this raise passes the results signal", ok,
                                     "" if ok else "TOO_FEW_REALIZATIONS can be raised before the results were delivered to handlers",
                                     [] if ok else describe_path(g, path))
-    res.floor = 1
+    # steps that evaluate directly (the evaluator step): the results event follows the evaluation on every path that
+    # ends the step normally, also when the step itself turns the failure into TOO_FEW_REALIZATIONS (shared with C15.1)
+    from .c15 import c15_1
+
+    for i in c15_1(ctx).instances:
+        if "FINISHED_EVALUATION after calculate" in i.construct:
+            i.rule = "C14.5"
+            i.obligation = "the results of the (possibly failing) evaluation are delivered before the step ends: " + i.obligation
+            res.instances.append(i)
+    res.floor = 2
     return res
 
 
@@ -1115,3 +1124,18 @@ def c14_10(ctx: Ctx) -> RuleResult:
 
 
 C0 = ("const", 0)
+
+
+# --------------------------------------------------------------------- C14.11
+@rule(P)
+def c14_11(ctx: Ctx) -> RuleResult:
+    """Shared with C13.4: delivering the results of a failing evaluation passes them through transform_from_optimizer;
+    a family of differences that is absent in such a result must not be touched."""
+    from .c13 import c13_4
+
+    r = c13_4(ctx)
+    r.instances = [i for i in r.instances if "differences present" in i.construct]
+    for i in r.instances:
+        i.rule = "C14.11"
+    r.rule, r.title, r.floor = "C14.11", "back-transforming a result without some family of constraint differences (failing evaluation) raises nothing", 3
+    return r
